@@ -244,6 +244,10 @@ class Interp:
             return z3.And(z3.Not(K.opt_isnone(b)), self.eq(a, K.opt_inner(b)))
         if isinstance(ka, K._None) or isinstance(kb, K._None):
             return z3.BoolVal(isinstance(ka, K._None) and isinstance(kb, K._None))
+        if isinstance(ka, K.Packed) and isinstance(kb, K.Tuple) and len(ka.items) == len(kb.items):
+            return a.t == K.pack(b, ka).t
+        if isinstance(kb, K.Packed) and isinstance(ka, K.Tuple) and len(ka.items) == len(kb.items):
+            return K.pack(a, kb).t == b.t
         if isinstance(ka, K.Tuple) and isinstance(kb, K.Tuple):
             if len(ka.items) != len(kb.items):
                 return z3.BoolVal(False)
@@ -338,6 +342,15 @@ class Interp:
 
     # ---- obligations ----------------------------------------------------------
     def check(self, goal, label, kind, node=None):
+        if label.startswith(('loop', 'ghost-assert')):
+            # known findings on invariants / ghost assertions: proved for every state outside the recorded class
+            guards = getattr(self.c, 'known_guards', {}).get(label)
+            if guards:
+                saved, self.spec = self.spec, True
+                try:
+                    goal = z3.Or(goal, *[self.truth(self.eval_text(g)) for g in guards])
+                finally:
+                    self.spec = saved
         goal = simp(goal)
         if z3.is_true(goal):
             # still recorded so that the obligation is counted as generated+discharged
@@ -459,43 +472,46 @@ class Interp:
         arrs = self.heap_arrays(key, kind)
         self.p.heap[key] = [z3.Store(a, ref.t, t) for a, t in zip(arrs, val.terms)]
 
-    def assume_valid(self, v):
+    def _assume_g(self, guard, t):
+        self.p.assume(t if guard is None else z3.Implies(guard, t))
+
+    def assume_valid(self, v, guard=None):
         """Type invariants of a value read from symbolic state (refs allocated, sizes >= 0)."""
         k = v.kind
         if isinstance(k, K.Ref):
-            self.p.assume(z3.And(v.t > 0, v.t < self.p.alloc))
+            self._assume_g(guard, z3.And(v.t > 0, v.t < self.p.alloc))
             ids = [self.p.ctx.class_id(c) for c in self.w.subclasses(k.cls)] or \
                   [self.p.ctx.class_id(k.cls)]
-            self.p.assume(z3.Or(*[self.p.ctx.dtype(v.t) == i for i in ids]))
+            self._assume_g(guard, z3.Or(*[self.p.ctx.dtype(v.t) == i for i in ids]))
         elif isinstance(k, K.Opt):
             inner = K.opt_inner(v)
             if isinstance(k.inner, K.Ref):
                 ids = [self.p.ctx.class_id(c) for c in self.w.subclasses(k.inner.cls)] or \
                       [self.p.ctx.class_id(k.inner.cls)]
-                self.p.assume(z3.Implies(z3.Not(K.opt_isnone(v)), z3.And(
+                self._assume_g(guard, z3.Implies(z3.Not(K.opt_isnone(v)), z3.And(
                     inner.t > 0, inner.t < self.p.alloc,
                     z3.Or(*[self.p.ctx.dtype(inner.t) == i for i in ids]))))
             elif isinstance(k.inner, (K.Seq, K.Set, K.Map)):
-                self.assume_valid(inner)
+                self.assume_valid(inner, guard)
         elif isinstance(k, K.Seq):
-            self.p.assume(K.seq_len(v) >= 0)
+            self._assume_g(guard, K.seq_len(v) >= 0)
         elif isinstance(k, K.Set):
-            self.p.assume(v.terms[0] >= 0)
+            self._assume_g(guard, v.terms[0] >= 0)
             xs = [self.p.fresh('sv', srt) for srt in k.elem.leaf_sorts()]
-            self.p.assume(z3.Implies(v.terms[0] == 0, z3.ForAll(xs, z3.Not(K.nsel(v.terms[1], xs)))))
-            self.p.assume(z3.ForAll(xs, z3.Implies(K.nsel(v.terms[1], xs), v.terms[0] > 0)))
+            self._assume_g(guard, z3.Implies(v.terms[0] == 0, z3.ForAll(xs, z3.Not(K.nsel(v.terms[1], xs)))))
+            self._assume_g(guard, z3.ForAll(xs, z3.Implies(K.nsel(v.terms[1], xs), v.terms[0] > 0)))
             if isinstance(k.elem, K.Ref):
-                self.p.assume(K.forall(xs, z3.Implies(K.nsel(v.terms[1], xs), self.ref_valid(xs[0], k.elem.cls)),
+                self._assume_g(guard, K.forall(xs, z3.Implies(K.nsel(v.terms[1], xs), self.ref_valid(xs[0], k.elem.cls)),
                                        patterns=[K.nsel(v.terms[1], xs)]))
         elif isinstance(k, K.Map):
-            self.p.assume(K.map_wf(v))
+            self._assume_g(guard, K.map_wf(v))
         elif isinstance(k, K.Tuple):
             for e in K.tuple_items(v):
-                self.assume_valid(e)
+                self.assume_valid(e, guard)
         elif isinstance(k, K.Rec):
             for f in k.fields:
                 off, fk = k.slot(f)
-                self.assume_valid(V(fk, v.terms[off + 1:off + 1 + fk.nleaves()]))
+                self.assume_valid(V(fk, v.terms[off + 1:off + 1 + fk.nleaves()]), guard)
 
     # ---- expression evaluation ------------------------------------------------
     def eval(self, node):
@@ -559,7 +575,8 @@ class Interp:
             if is_and and not t:
                 return val
             if not is_and and t:
-                return val
+                # a truthy value is not None
+                return K.opt_inner(val) if isinstance(val, V) and isinstance(val.kind, K.Opt) else val
         return val
 
     def e_UnaryOp(self, node):
@@ -954,7 +971,8 @@ class Interp:
         if isinstance(k, K.Map):
             self.implicit_raise(K.map_has(base, idx), 'KeyError', 'missing dict key', node)
             v = K.map_get(base, idx)
-            self.assume_valid(v)
+            # in a specification the key may be a bound variable outside the dict: validity only for present keys
+            self.assume_valid(v, K.map_has(base, idx) if self.spec else None)
             return v
         if isinstance(k, K.Seq):
             i = self.as_int(idx)
@@ -963,6 +981,9 @@ class Interp:
             v = K.seq_get(base, z3.If(i >= 0, i, n + i))
             self.assume_valid(v)
             return v
+        if isinstance(k, K.Packed):
+            base = K.unpack(base)
+            k = base.kind
         if isinstance(k, K.Tuple):
             i = simp(self.as_int(idx))
             if not z3.is_int_value(i):
